@@ -1,12 +1,16 @@
 import DnsVerif.Lemmas.AddrEmit
 import DnsVerif.Lemmas.ApiMachines
+import DnsVerif.Lemmas.SoundMsg
+import DnsVerif.Lemmas.CompleteMsg
+import DnsVerif.Lemmas.RTElem
 
-/-! # C17 — address-prefix items (APL, ECS) use the RFC forms in both directions (arithmetic core)
+/-! # C17 — address-prefix items (APL, ECS) use the RFC forms in both directions
 
 Model: `checkPrefix` (src/rr/subtypes.rs), `D.address` (zero fill, src/decode/rr/subtypes.rs),
-`addrWithPrefix` (ECS writer loop), `stripZeros` (APL writer as repaired). Record-level acceptance
-(`OptionAt`/`ApItemAt` ⇔ decoder) is in C03/C04; here: the acceptance condition itself, the emitted
-octet counts, and loss-free cutting. -/
+`addrWithPrefix` (ECS writer loop), `stripZeros` (APL writer as repaired). First the acceptance condition
+itself, the emitted octet counts and loss-free cutting; then item level: an APL item / ECS option is
+accepted ⇔ the grammar `ApItemAt` / `OptionAt.ecs` (`PrefixAddrAt`: ANY number `k` of address octets from
+none up to the family size, missing octets zero, prefix within the family size, no bit beyond it). -/
 
 namespace C17
 
@@ -52,5 +56,33 @@ theorem K2_witness : addrWithPrefix [10, 0, 0, 0] 24 = [10, 0, 0, 0] ∧ (24 + 7
 /-- ECS output loses nothing for a valid value -/
 theorem ecs_emit_roundtrip (a : Bytes) (m : Nat) (hno : NoBitBeyond a m) :
     addrWithPrefix a m ++ List.replicate (a.length - (addrWithPrefix a m).length) 0 = a := addrWithPrefix_fill a m hno
+
+/-! ## Item level: accepted exactly in the RFC forms -/
+
+theorem apl_item_sound {d d' : D} {it : APItem} (hd : D.Ok d) (h : decApItem d = .ok (it, d')) :
+    ApItemAt d.buf d.off it d'.off := (Sound.decApItem_sound hd h).1
+
+theorem apl_item_complete {buf : Bytes} {off e lim c : Nat} {it : APItem} (h : ApItemAt buf off it e)
+    (he : e ≤ lim) (hlb : lim ≤ buf.length) (hB : buf.length < 2 ^ 63) :
+    ∃ c', decApItem { buf := buf, off := off, lim := lim, cost := c } = .ok (it, { buf := buf, off := e, lim := lim, cost := c' }) :=
+  Complete.decApItem_complete h he hlb hB
+
+/-- the ECS case of `OptionAt` (sound and complete: C15 `option_accept_sound/complete`) spells out the
+RFC 7871 form: family 1|2, `len - 4` address octets (any count up to the family size), zero fill -/
+theorem ecs_option_form {buf : Bytes} {off e fam src scope : Nat} {addr : Bytes} (h : OptionAt buf off (.ecs fam src scope addr) e) :
+    ∃ len, 4 ≤ len ∧ e = off + 4 + len ∧ PrefixAddrAt buf (off + 8) (len - 4) fam (max src scope) addr := by
+  cases h with
+  | ecs _ h4 _ _ _ _ hp => exact ⟨_, h4, rfl, hp⟩
+
+/-! ## Emission preserves family, prefix lengths, negation and every address octet -/
+
+theorem apl_roundtrip {rr : RR} {b : Bytes} {items : List APItem} (hwf : WfRR rr) (hrd : rr.rd = .apl items)
+    (h : encodeRR rr = .ok b) : ∃ d, decodeRR b = .ok (rr, d) ∧ d.off = b.length := RT.apl_roundtrip hwf hrd h
+
+theorem ecs_roundtrip {p x v fam src scope : Nat} {dn : Bool} {addr : Bytes} (hp : p < 65536) (hx : x < 256)
+    (hv : v < 256) (hwf : WfOption (.ecs fam src scope addr)) :
+    ∃ b d, encodeRR (RT.optRR p x v dn [.ecs fam src scope addr]) = .ok b ∧
+      decodeRR b = .ok (RT.optRR p x v dn [.ecs fam src scope addr], d) ∧ d.off = b.length ∧ b.length ≤ 35 :=
+  RT.ecs_roundtrip hp hx hv hwf
 
 end C17
